@@ -14,6 +14,7 @@ harnesses.json entries:
    "obligation": "short name", "stubs_expected": ["fmt::format"]}
 """
 import json, os, re, shutil, subprocess, sys, tempfile, time, hashlib, atexit, signal
+sys.path.insert(0, os.path.dirname(os.path.abspath(__file__)))
 
 VERIF = os.path.dirname(os.path.dirname(os.path.abspath(__file__)))
 REPO = os.environ.get("VERIF_REPO", "/repo")
@@ -203,7 +204,10 @@ def playback_for(root, h, features):
 
 
 def run_for(prop, tier):
-    hs = [h for h in load_harnesses() if prop in h["props"] and (tier == "thorough" or h.get("tier", "quick") == "quick")]
+    import driver
+    rd = driver.ready()
+    hs = [h for h in load_harnesses() if prop in h["props"] and (tier == "thorough" or h.get("tier", "quick") == "quick")
+          and (rd is None or h["module"] in rd["kani"])]
     if not hs:
         return []
     root = make_overlay(all_modules({h["module"] for h in hs}))
